@@ -3,7 +3,7 @@ from __future__ import annotations
 
 import ast
 
-from engine.cfg import CFG, normalise_compare, atoms
+from engine.cfg import CFG, normalise_compare, atoms, A
 from engine.model import src, stmt_key, AnalysisError
 from engine import pat
 from engine.util import where
@@ -147,7 +147,7 @@ def run(model, rep, tier):
     # relative/absolute arm
     okk = False
     for nd in ast.walk(fcn):
-        if isinstance(nd, ast.If) and " ".join(src(nd.test).split()) == "sabs != oabs":
+        if isinstance(nd, ast.If) and atoms(normalise_compare(nd.test)) == [A("sabs", "!=", "oabs")]:
             inner = [x for x in nd.body if isinstance(x, ast.If)]
             if inner and src(inner[0].test) == "sabs":
                 t_ret = [src(s.value) for s in inner[0].body if isinstance(s, ast.Return)]
